@@ -12,7 +12,7 @@ from . import asmdiff as A
 WORK = f"{C.CACHE}/cli_work"
 
 PROGRAMS = {
-    "ok": "@include \"lib.inc\"\nstart: nop\n@db 1, 2, LIBV\n@dw start\n",
+    "ok": "@include \"lib.inc\"\nstart: nop\n@meta \"ID\" \"RAM\"\nvar:\n@endmeta\n@db 1, 2, LIBV\n@dw start\n",
     "parse-fail": "nop\n@bogus 1\n",
     "link-fail": "@dw nowhere\nnop\n",
     "range-link-fail": "@db later\n@defl later, 300\n",
@@ -44,16 +44,24 @@ def run(tier, seed):
     cases = []
     k = 0
     archs = ["6502", "z80", "sm83"]
-    for arch, prog, placement, to_file, dbg, sp in itertools.product(
-            archs, PROGRAMS, ("before", "after", "mixed"), (False, True), ("none", "json", "arch"), ("good", "bad", "none")):
-        if tier == "quick" and rng.random() < 0.55 and not (prog == "ok" and placement != "before"):
+    # output mode: stdout; a new -o file; an -o file that already exists with longer, stale contents;
+    # an -o file that cannot be created.  Export flags: none; -g; -g plus the CPU's own exporter;
+    # the same with one of the export files impossible to create (its directory does not exist).
+    for arch, prog, placement, omode, dbg, sp in itertools.product(
+            archs, PROGRAMS, ("before", "after", "mixed"), ("stdout", "new", "stale", "nodir"),
+            ("none", "json", "arch", "json-nodir", "arch-nodir", "arch-json-nodir"), ("good", "bad", "none")):
+        if tier == "quick" and rng.random() < 0.75 and not (prog == "ok" and placement == "after" and sp == "good"):
             continue
+        if dbg in ("arch-nodir", "arch-json-nodir") and arch == "z80":
+            continue
+        to_file = omode != "stdout"
         if prog == "ok" and sp == "none":
             continue   # lib.inc is found through the search path or the root's own directory
-        cases.append((arch, prog, placement, to_file, dbg, sp))
+        cases.append((arch, prog, placement, omode, dbg, sp))
     model_lines = []
     results = []
-    for i, (arch, prog, placement, to_file, dbg, sp) in enumerate(cases):
+    for i, (arch, prog, placement, omode, dbg, sp) in enumerate(cases):
+        to_file = omode != "stdout"
         root = f"{WORK}/c{i}"
         os.makedirs(f"{root}/proj/src", exist_ok=True)
         os.makedirs(f"{root}/libs", exist_ok=True)
@@ -71,21 +79,25 @@ def run(tier, seed):
             opts += ["-I", "../libs", "-I", "../no-such-dir"]
             msp = ["../libs", "../no-such-dir"]
         if to_file:
-            opts += ["-o", "out.bin"]
+            opts += ["-o", "nodir/out.bin" if omode == "nodir" else "out.bin"]
+        if omode == "stale":
+            open(f"{root}/elsewhere/out.bin", "wb").write(b"\x55" * 64)
         exports = []
         sub_opts = []
-        if dbg == "json":
-            opts += ["-g", "dbg.json"]
-            exports = ["json"]
-        elif dbg == "arch":
+        jpath, jbang = ("nodir/dbg.json", "!") if dbg in ("json-nodir", "arch-json-nodir") else ("dbg.json", "")
+        apath, abang = ("nodir/game", "!") if dbg == "arch-nodir" else ("game", "")
+        if dbg in ("json", "json-nodir"):
+            opts += ["-g", jpath]
+            exports = ["json" + jbang]
+        elif dbg != "none":
             if arch == "6502":
-                sub_opts = ["--gNL", "game.nes"]
-                exports = ["nl"]
+                sub_opts = ["--gNL", apath + ".nes"]
+                exports = ["nl" + abang]
             elif arch == "sm83":
-                sub_opts = ["--gSYM", "game.sym"]
-                exports = ["sym"]
-            opts += ["-g", "dbg.json"]
-            exports = exports + ["json"]
+                sub_opts = ["--gSYM", apath + ".sym"]
+                exports = ["sym" + abang]
+            opts += ["-g", jpath]
+            exports = exports + ["json" + jbang]
         sub = [arch, "../proj/src/main.asm"] + sub_opts
         if placement == "before":
             argv = opts + sub
@@ -102,14 +114,15 @@ def run(tier, seed):
             written[fn] = open(os.path.join(cwd, fn), "rb").read()
         results.append((p.returncode, p.stdout, p.stderr, written, argv))
         fspec = ";".join(f"{pth}={d.hex()}" for pth, d in files.items()) + ";/elsewhere/;/libs/;/proj/src/"
-        model_lines.append(f"c{i}\tcli\t{arch}\t/elsewhere\t../proj/src/main.asm\t{';'.join(msp) if msp else '-'}\t{fspec}\t{1 if to_file else 0}\t{','.join(exports) if exports else '-'}")
+        model_lines.append(f"c{i}\tcli\t{arch}\t/elsewhere\t../proj/src/main.asm\t{';'.join(msp) if msp else '-'}\t{fspec}\t{'x' if omode == 'nodir' else 1 if to_file else 0}\t{','.join(exports) if exports else '-'}")
     model = C.run_model(model_lines)
     hist = {}
-    for i, (arch, prog, placement, to_file, dbg, sp) in enumerate(cases):
+    for i, (arch, prog, placement, omode, dbg, sp) in enumerate(cases):
+        to_file = omode != "stdout"
         rc, so, se, written, argv = results[i]
         m = model.get(f"c{i}", ["?"])
         chk.evaluations += 1
-        chk.distinct.add((arch, prog, placement, to_file, dbg, sp))
+        chk.distinct.add((arch, prog, placement, omode, dbg, sp))
         hist[prog] = hist.get(prog, 0) + 1
         # ---- correspondence with the Model of main()
         m_exit, m_out, m_of, m_msg, m_exp = (m + ["?"] * 5)[:5]
@@ -120,7 +133,8 @@ def run(tier, seed):
         if got != [m_exit, m_out, m_of, m_msg]:
             chk.disagreements.append({"argv": argv, "program": prog, "impl": got + [sorted(written)], "model": m[:5]})
         # ---- the property itself, on the real binary
-        should_ok = sp != "bad" and (prog == "ok" or (prog == "export-fail" and dbg == "none"))
+        should_ok = sp != "bad" and omode != "nodir" and (prog == "ok" or (prog == "export-fail" and dbg == "none")) and "nodir" not in dbg
+        image_ok = sp != "bad" and omode != "nodir" and prog in ("ok", "export-fail")     # assembling and linking succeed
         bad = None
         if rc not in (0, 1):
             bad = f"exit status {rc} (crash or usage error); stderr: {se.decode('utf-8', 'replace')[-160:]}"
@@ -130,29 +144,31 @@ def run(tier, seed):
             bad = "exit status 0 although a phase failed"
         elif rc != 0 and not se:
             bad = "failed without a message on standard error"
-        elif prog in ("parse-fail", "link-fail", "range-link-fail", "missing-include") or sp == "bad":
+        elif not image_ok:
             if so:
                 bad = f"assembling/linking failed but {len(so)} bytes were written to standard output"
-            elif of:
+            elif of and not (omode == "stale" and of == b"\x55" * 64):
                 bad = f"assembling/linking failed but {len(of)} bytes were written to the -o file"
             elif n_exports:
                 bad = f"assembling/linking failed but export files were created: {sorted(written)}"
-        if should_ok:
+        if image_ok and not bad:
             want = bytes.fromhex(ARCH_NOP[arch]) + (bytes([1, 2, 9, 0, 0]) if prog == "ok" else b"")
             data = of if to_file else so
             if data != want:
                 bad = f"output {data.hex() if data is not None else None} differs from {want.hex()} ({'-o file' if to_file else 'stdout'})"
             if to_file and so:
                 bad = "bytes on standard output although -o was given"
+            if should_ok and dbg != "none" and "dbg.json" not in written:
+                bad = "exit status 0 but the -g file was not written"
         if bad:
-            chk.violation(f"cli:{prog}:{placement}:{'o' if to_file else 's'}:{dbg}:{sp}", f"{bad}\ncommand: az65 {' '.join(argv)}  (cwd elsewhere/, root ../proj/src/main.asm)\nprogram:\n{PROGRAMS[prog]}",
+            chk.violation(f"cli:{prog}:{placement}:{omode}:{dbg}:{sp}", f"{bad}\ncommand: az65 {' '.join(argv)}  (cwd elsewhere/, root ../proj/src/main.asm)\nprogram:\n{PROGRAMS[prog]}",
                           {"argv": argv, "program": PROGRAMS[prog], "exit": rc, "stdout": so.hex(), "stderr": se.decode("utf-8", "replace"), "files": sorted(written)})
     shutil.rmtree(WORK, ignore_errors=True)
     chk.samples += [{"argv": results[k][4], "exit": results[k][0], "stdout": results[k][1].hex(), "files": sorted(results[k][3])} for k in (0, len(results) // 2, len(results) - 1)]
     chk.oblige("correspondence: the real binary (exit status, stdout, -o file, message) = Cli.main over the Model's phases on every combination",
                not chk.disagreements, json.dumps(chk.disagreements[:2])[:900])
     chk.coverage.update({"exhaustive": tier == "thorough", "program_kinds": hist,
-                         "exhaustive_note": "3 sub-commands x 6 program kinds (succeeding; failing while parsing, linking (undefined / deferred range), exporting; missing include) x option placement (before / after / split around the sub-command) x {stdout, -o} x {no export, -g, -g plus --gNL/--gSYM} x {good, bad, no search path}: all combinations in thorough, a seeded half in quick (all placements of the succeeding program always)"})
+                         "exhaustive_note": "3 sub-commands x 6 program kinds (succeeding; failing while parsing, linking (undefined / deferred range), exporting; missing include) x option placement (before / after / split around the sub-command) x {stdout, new -o file, -o file with longer stale contents, -o file that cannot be created} x {no export, -g, -g plus --gNL/--gSYM, each with one export file impossible to create} x {good, bad, no search path}: all combinations in thorough, a seeded quarter in quick (the succeeding program with options after the sub-command always)"})
     chk.assumptions = ["clap's parsing of the declared option grammar, process exit codes and file creation are OS / library behaviour: modelled (Cli.main) and observed here, not verified",
                        "with -o FILE the file is created (truncated) before assembling, so a failed run leaves an empty FILE: no bytes are written to it, which is what the statement asks"]
     return chk.finish(
